@@ -37,6 +37,19 @@ func strTemplate(v ssa.Value, env map[ssa.Value]ssa.Value, depth int) ([]strPiec
 	switch x := v.(type) {
 	case *ssa.Parameter:
 		return []strPiece{{hole: x}}, true
+	case *ssa.UnOp:
+		// a field of a struct parameter (spilled to a local): the value the caller put into that field
+		if fa, ok := x.X.(*ssa.FieldAddr); ok && x.Op == token.MUL {
+			if fv := structParamField(fa.X, fa.Field, env); fv != nil {
+				return strTemplate(fv, nil, depth+1)
+			}
+		}
+	case *ssa.Field:
+		if par, ok := x.X.(*ssa.Parameter); ok {
+			if fv := fieldOfStructValue(envOr(par, env), x.Field); fv != nil {
+				return strTemplate(fv, nil, depth+1)
+			}
+		}
 	case *ssa.BinOp:
 		if x.Op != token.ADD {
 			return nil, false
@@ -113,6 +126,12 @@ func strTemplate(v ssa.Value, env map[ssa.Value]ssa.Value, depth int) ([]strPiec
 			return mergeLits(out), true
 		case "strconv.Itoa", "strconv.FormatInt", "strconv.FormatUint":
 			return []strPiece{{hole: x, num: true}}, true
+		case "(*strings.Builder).String":
+			// a local builder written in straight-line code: the pieces in the order they were written
+			if t, ok := builderTemplate(x, env, depth); ok {
+				return t, true
+			}
+			return []strPiece{{hole: x}}, true
 		}
 		// a helper with one return expression
 		g := x.Call.StaticCallee()
@@ -136,6 +155,15 @@ func strTemplate(v ssa.Value, env map[ssa.Value]ssa.Value, depth int) ([]strPiec
 			a := x.Call.Args[i]
 			if s, ok := env[a]; ok {
 				a = s
+			} else if ld, isLd := a.(*ssa.UnOp); isLd && ld.Op == token.MUL {
+				// a struct parameter handed on by value (a load of its spill)
+				if al, isA := ld.X.(*ssa.Alloc); isA {
+					if sts := core.CellStores(al); len(sts) == 1 {
+						if s, ok := env[sts[0].Val]; ok {
+							a = s
+						}
+					}
+				}
 			}
 			sub[par] = a
 		}
@@ -181,4 +209,105 @@ func funcStrTemplate(f *ssa.Function) ([]strPiece, bool) {
 		return nil, false
 	}
 	return strTemplate(core.RetVal(ret, 0), nil, 0)
+}
+
+
+func envOr(v ssa.Value, env map[ssa.Value]ssa.Value) ssa.Value {
+	if s, ok := env[v]; ok {
+		return s
+	}
+	return v
+}
+
+// structParamField: base is the local a struct parameter was spilled to; the value stored into field
+// idx of the struct the caller passed (a composite literal of the caller), nil when not of that shape.
+func structParamField(base ssa.Value, idx int, env map[ssa.Value]ssa.Value) ssa.Value {
+	al, ok := base.(*ssa.Alloc)
+	if !ok {
+		return nil
+	}
+	sts := core.CellStores(al)
+	if len(sts) != 1 {
+		return nil
+	}
+	par, ok := sts[0].Val.(*ssa.Parameter)
+	if !ok {
+		return nil
+	}
+	return fieldOfStructValue(envOr(par, env), idx)
+}
+
+// fieldOfStructValue: v is a struct value built by a composite literal (a load of the literal's local):
+// the one value stored into its field idx.
+func fieldOfStructValue(v ssa.Value, idx int) ssa.Value {
+	ld, ok := v.(*ssa.UnOp)
+	if !ok || ld.Op != token.MUL {
+		return nil
+	}
+	lit, ok := ld.X.(*ssa.Alloc)
+	if !ok || lit.Referrers() == nil {
+		return nil
+	}
+	var val ssa.Value
+	for _, ref := range *lit.Referrers() {
+		fa, ok := ref.(*ssa.FieldAddr)
+		if !ok || fa.Field != idx || fa.Referrers() == nil {
+			continue
+		}
+		for _, r2 := range *fa.Referrers() {
+			if st, ok := r2.(*ssa.Store); ok && st.Addr == ssa.Value(fa) {
+				if val != nil {
+					return nil
+				}
+				val = st.Val
+			}
+		}
+	}
+	return val
+}
+
+// builderTemplate: the string of a local strings.Builder at a String() call: every write to it is a
+// WriteString / WriteByte / WriteRune whose block dominates the call and lies in no loop.
+func builderTemplate(call *ssa.Call, env map[ssa.Value]ssa.Value, depth int) ([]strPiece, bool) {
+	if len(call.Call.Args) != 1 {
+		return nil, false
+	}
+	b, ok := call.Call.Args[0].(*ssa.Alloc)
+	if !ok || b.Referrers() == nil {
+		return nil, false
+	}
+	var out []strPiece
+	for _, in := range core.OwnInstrs(call.Parent()) {
+		c, isCall := in.(*ssa.Call)
+		if !isCall || len(c.Call.Args) == 0 || c.Call.Args[0] != ssa.Value(b) || c == call {
+			continue
+		}
+		if !core.Dominates(c, call) || core.LoopHeadOf(c.Block()) != nil {
+			return nil, false
+		}
+		switch core.ResolveCall(c).Name {
+		case "(*strings.Builder).WriteString":
+			t, ok := strTemplate(c.Call.Args[1], env, depth+1)
+			if !ok {
+				return nil, false
+			}
+			out = append(out, t...)
+		case "(*strings.Builder).WriteByte", "(*strings.Builder).WriteRune":
+			k, ok := core.ConstInt(c.Call.Args[1])
+			if !ok {
+				return nil, false
+			}
+			out = append(out, strPiece{lit: string(rune(k))})
+		case "(*strings.Builder).Grow", "(*strings.Builder).Len":
+		default:
+			return nil, false
+		}
+	}
+	// any other use of the builder (its address handed elsewhere) makes the content unknown
+	for _, ref := range *b.Referrers() {
+		if _, isCall := ref.(*ssa.Call); !isCall {
+			return nil, false
+		}
+	}
+	return mergeLits(out), true
 }
